@@ -1,1 +1,3 @@
-//! Hooks for property C22 (empty unless needed).
+//! Hooks for property C22: wrapper around the crate-private `RemotePathState`
+//! (defined next to it in `socket/remote_map/remote_state/path_state.rs`).
+pub use crate::socket::remote_map::verif_c22::{PathStateHarness, Status};
